@@ -86,6 +86,7 @@ def run(ctx, ncases=None):
     nontrivial = set()
     kdiff = 0
     oracle_run = 0
+    acct_checked = 0
     nevents = 0
     for case, r in zip(cases, results):
         if 'error' in r:
@@ -111,6 +112,25 @@ def run(ctx, ncases=None):
                 status, _ = c04.oracle(r, max(nwin, 1))
                 ctx.fail('reported hits differ from the interpreter\'s own line events',
                          {'finding_class': 'F-C04a' if status == 'alias' else None, 'case': case, 'differences': det[:20]})
+        if getattr(ctx, 'driver_ok', True) and not r['midflight_disable']:
+            # the right-hand side of C01.reported_hits_exact (LINE events the model delivers to the callback, per label and line) against the
+            # interpreter's own line events counted by the recorder (plus those of indistinguishable unregistered code, F-C04a)
+            acct = [x for x in r.get('model_out', []) if x.startswith('acct')]
+            if acct:
+                a = corelib.parse_acct(acct[-1])
+                want = {}
+                for src in (r['oracle'], r['alias']):
+                    for key, n in src.items():
+                        lab, line = map(int, key.split(':'))
+                        if n:
+                            want[(lab, line)] = want.get((lab, line), 0) + n
+                got = {k: v[0] for k, v in a.items() if v[0]}
+                hyp = all(v[1] == 0 and v[2] == 0 for v in a.values())
+                acct_checked += 1 if hyp else 0
+                if hyp and got != want:
+                    ks = sorted(set(got) | set(want))
+                    ctx.broken.append(('K01 correspondence (delivered events)', 'model delivered %s, interpreter %s; case=%s' % (
+                        [(k, got.get(k)) for k in ks if got.get(k) != want.get(k)][:6], [(k, want.get(k)) for k in ks if got.get(k) != want.get(k)][:6], corelib.case_digest(case))))
         if getattr(ctx, 'driver_ok', True):
             diffs = corelib.compare_case(r)
             if diffs:
@@ -131,7 +151,7 @@ def run(ctx, ncases=None):
                 'non-trivial = some registered function executes >= 2 distinct lines and the program contains a loop, exception, with, '
                 'generator/coroutine suspension or recursion; distinct by sha256 of the case',
         'traces_validated_against_impl': len(cases) - kdiff,
-        'correspondence_disagreements': kdiff, 'oracle_checked': oracle_run,
+        'correspondence_disagreements': kdiff, 'oracle_checked': oracle_run, 'delivered_events_checked_with_theorem_hypotheses': acct_checked,
         'trace_events_total': nevents, 'feature_distribution': feats, 'mode_distribution': modes,
         'corpus_cases': ncorpus,
     })
